@@ -2,3 +2,4 @@ import ClapModel.Bytes
 import ClapModel.Utf8
 import ClapModel.Lex
 import ClapModel.RawArgs
+import ClapModel.TextWrap
